@@ -22,7 +22,7 @@
  * Output:
  *   case <case_seed> <nops> <path> rate=.. fmt=.. interp=.. inject=.. smp=.. pat=..
  *   o_fail <signature> op=<index>:<name> <details>          a violation of the property
- *   inv <call> <chn> <speed> <count0> <pos0> <count1> <pos1> <smp> <voice mapped> <voice smp> <voice queued?> <queued smp> <voice paused?> <present> <loop> <sloop> <16bit> <datanull>
+ *   inv <call> <chn> <speed> <count0> <pos0> <count1> <pos1> <smp> <voice mapped> <voice smp> <voice queued?> <queued smp> <voice paused? | 2*(xc->smp is a sample of instrument xc->ins)> <present> <loop> <sloop> <16bit> <datanull>
  *       <lps> <lpe> <sus> <sue> <nflipped> <first flipped offset>
  *                       correspondence for the model of update_invloop (one line per xmp_play_frame and channel
  *                       with invert-loop speed > 0): state before/after, what it reads, what was flipped
@@ -203,6 +203,20 @@ static int chan_voice(struct context_data *ctx, int c, int *vsmp, int *vq, int *
 	return 1;
 }
 
+/* xc->smp is one of the samples of the channel's current instrument */
+static int chan_smp_of_ins(struct context_data *ctx, int c)
+{
+	struct xmp_module *mod = &ctx->m.mod;
+	struct channel_data *xc = &ctx->p.xc_data[c];
+	int k;
+	if (xc->ins < 0 || xc->ins >= mod->ins || mod->xxi[xc->ins].sub == NULL)
+		return 0;
+	for (k = 0; k < mod->xxi[xc->ins].nsm; k++)
+		if (mod->xxi[xc->ins].sub[k].sid == xc->smp)
+			return 1;
+	return 0;
+}
+
 /* "the sample the effect is applied to" is the one the channel's voice plays (or has queued by a Protracker
  * sample swap): channel and voice must agree on it.  A channel without a voice cannot be judged. */
 static int chan_coherent(struct context_data *ctx, int c)
@@ -213,7 +227,12 @@ static int chan_coherent(struct context_data *ctx, int c)
 		return 1;
 	/* a queued swap: the queued sample is the channel's (or "none": the voice is about to stop);
 	 * otherwise the voice plays the channel's sample, or is paused (silent) */
-	return vq ? (vqsmp < 0 || vqsmp == xc->smp) : (vpaused || vsmp == xc->smp);
+	if (vq ? (vqsmp < 0 || vqsmp == xc->smp || vsmp == xc->smp) : (vpaused || vsmp == xc->smp))
+		return 1;
+	/* libxmp_mixer_queuepatch ignores a swap back to the sample that is playing without cancelling an older
+	 * pending swap, so the voice may later move to a sample the channel no longer selects (an audio matter).
+	 * The effect then still acts on the channel's own choice: a sample of the channel's current instrument. */
+	return chan_smp_of_ins(ctx, c);
 }
 
 static int invloop_active_on(struct context_data *ctx, int smp)
@@ -524,6 +543,32 @@ static int vary_insvol(struct context_data *ctx)
 	return n;
 }
 
+/* formats that keep their loops as sustain loops (Digital Symphony, IT): some looped 8-bit samples get their loop
+ * as a sustain loop instead (XMP_SAMPLE_SLOOP without XMP_SAMPLE_LOOP, xtra->sus/sue) */
+static int vary_sustain(struct context_data *ctx)
+{
+	struct module_data *m = &ctx->m;
+	struct xmp_module *mod = &m->mod;
+	int i, n = 0;
+	if (m->xtra == NULL)
+		return 0;
+	for (i = 0; i < mod->smp; i++) {
+		struct xmp_sample *x = &mod->xxs[i];
+		if (!(x->flg & XMP_SAMPLE_LOOP) || (x->flg & XMP_SAMPLE_SLOOP) || x->data == NULL || !vrng_chance(50))
+			continue;
+		m->xtra[i].sus = x->lps;
+		m->xtra[i].sue = x->lpe;
+		if (x->flg & XMP_SAMPLE_LOOP_BIDIR)
+			x->flg |= XMP_SAMPLE_SLOOP_BIDIR;
+		x->flg &= ~(XMP_SAMPLE_LOOP | XMP_SAMPLE_LOOP_BIDIR | XMP_SAMPLE_LOOP_FULL);
+		x->flg |= XMP_SAMPLE_SLOOP;
+		if (vrng_chance(50))
+			x->lps = x->lpe = 0;
+		n++;
+	}
+	return n;
+}
+
 /* invert-loop effects whatever the module's own quirks are */
 static int inject_invloop_any(struct context_data *ctx)
 {
@@ -597,7 +642,7 @@ static void inv_after(struct context_data *ctx)
 		       xc->invloop.count, xc->invloop.pos, xc->smp);
 		{
 			int vsmp, vq, vqsmp, vpaused, mapped = chan_voice(ctx, c, &vsmp, &vq, &vqsmp, &vpaused);
-			printf("%d %d %d %d %d ", mapped, vsmp, vq, vqsmp, vpaused);
+			printf("%d %d %d %d %d ", mapped, vsmp, vq, vqsmp, vpaused | (chan_smp_of_ins(ctx, c) ? 2 : 0));
 		}
 		if (present)
 			printf("1 %d %d %d %d %d %d %d %d %d %ld\n", (x->flg & XMP_SAMPLE_LOOP) ? 1 : 0,
@@ -699,6 +744,8 @@ static int run_case(uint64_t case_seed, int nops, const char *path)
 			nspd = vary_c5spd(ctx);
 		if (vrng_chance(40))
 			vary_insvol(ctx);
+		if (vrng_chance(30))
+			vary_sustain(ctx);
 		if (vrng_chance(40))
 			inject += inject_invloop_any(ctx);	/* the player mode may be switched to one that honours it */
 		rng2_state = vrng_state;
@@ -714,6 +761,8 @@ static int run_case(uint64_t case_seed, int nops, const char *path)
 #define AFTER(name, multi) do { if (verbose) printf("op %d %s\n", op, name); compare(ctx, &snap, op, name, multi); } while (0)
 
 	op = -1;
+	if (gen_level >= 2 && r2_below(100) < 20)
+		xmp_set_player(opaque, XMP_PLAYER_VOICES, r2_range(1, 6));	/* few voices: notes evict each other */
 	if (xmp_start_player(opaque, rate, fmt) == 0) {
 		started = 1;
 		xmp_set_player(opaque, XMP_PLAYER_INTERP, interp);
@@ -942,6 +991,8 @@ static int run_long(uint64_t case_seed, long nticks)
 		return 0;
 	}
 	has_invloop_fx = 1;
+	if (vrng_chance(35))
+		vary_sustain(ctx);
 	take_snapshot(ctx, &snap);
 	interp = vrng_below(3);
 	printf("case %llu %ld @synthetic rate=4000 fmt=4 interp=%d inject=0 invloopfx=1 smp=%d pat=%d gen=3 mut=0 c5spd=0",
